@@ -181,29 +181,64 @@ theorem xlsb_empty_elsewhere (S : List (Nat × Nat × Val)) (r : Range.Rng Val)
   rw [this]; rfl
 
 
-/-! ## termination -/
+/-! ## totality: no hang, no panic (C06 for the xlsb sheet, string-table and record readers) -/
 
 /-- **termination**: with the fuel the model gives itself (one unit per byte of the part, plus one) reading a
     worksheet part never runs out of fuel, whatever the bytes: every loop of `XlsbCellsReader::new` and of the
     cell loop consumes at least two bytes per iteration -/
 theorem decodeSheet_total (ctx : Ctx) (bs : Bytes) : decodeSheet ctx bs ≠ .outOfFuel := by
   unfold decodeSheet
-  obtain ⟨n1, n2⟩ := newReader_total bs
-  cases h1 : newReader bs with
-  | ok v =>
-    obtain ⟨dims, rest⟩ := v
-    have hs := n2 dims rest h1
-    simp only [dimLen]
-    have hc := readCells_fuel ctx (bs.length + 1) rest 0 (by omega)
-    cases h2 : readCells ctx (bs.length + 1) rest 0 with
-    | ok cells => exact fromSparse_ne_fuel _
-    | err e => simp
-    | panic s => simp
-    | outOfFuel => exact absurd h2 hc
+  have h := sheetCells_ne_fuel ctx bs
+  cases hc : sheetCells ctx bs with
+  | ok cells => exact fromSparse_ne_fuel _
   | err e => simp
   | panic s => simp
-  | outOfFuel => exact absurd h1 n1
+  | outOfFuel => exact absurd hc h
 
+/-- **the sheet reader never panics** (after the `fix:` commits that turned the unchecked slices of
+    `XlsbCellsReader::new`, `next_cell`, `wide_str` into errors): on every byte string, with every style table,
+    string table and date system, reading the cells of a worksheet part ends in `Ok` or `Err` -/
+theorem sheetCells_no_panic (ctx : Ctx) (bs : Bytes) (m : String) : sheetCells ctx bs ≠ .panic m :=
+  sheetCells_ne_panic ctx bs m
+
+theorem sheetCells_total (ctx : Ctx) (bs : Bytes) : sheetCells ctx bs ≠ .outOfFuel :=
+  sheetCells_ne_fuel ctx bs
+
+/-- `decodeSheet_no_panic`, the part that holds today: a panic of `worksheet_range_ref` on an xlsb sheet can only
+    be the panic of `Range::from_sparse` on the cells that were read without any error — i.e. the recorded
+    finding "from_sparse subtracts the first cell's row" (row headers out of order), which is dealt with in
+    `lib.rs`, outside the xlsb reader. Missing for the full statement `∀ ctx bs m, decodeSheet ctx bs ≠ .panic m`:
+    a `from_sparse` that does not panic on unsorted rows (then `Range.fromSparse … ≠ .panic m` closes it). -/
+theorem decodeSheet_no_panic_partial (ctx : Ctx) (bs : Bytes) (m : String) (h : decodeSheet ctx bs = .panic m) :
+    ∃ cells, sheetCells ctx bs = .ok cells ∧ Range.fromSparse cells = .panic m := by
+  unfold decodeSheet at h
+  cases hc : sheetCells ctx bs with
+  | ok cells => rw [hc] at h; exact ⟨cells, rfl, h⟩
+  | err e => rw [hc] at h; cases h
+  | panic s => exact absurd hc (sheetCells_ne_panic ctx bs s)
+  | outOfFuel => rw [hc] at h; cases h
+
+/-- … and when the cells come in non-decreasing rows inside the grid (every sheet a conforming writer produces)
+    there is no panic at all -/
+theorem decodeSheet_no_panic_sorted (ctx : Ctx) (bs : Bytes) (cells : List (Nat × Nat × Val))
+    (hc : sheetCells ctx bs = .ok cells) (hs : GridSorted cells) : ∃ r, decodeSheet ctx bs = .ok r := by
+  unfold decodeSheet
+  rw [hc]
+  exact Range.fromSparse_of_pre cells (sparsePre_of_gridSorted cells hs)
+
+/-- the record iterator never panics and never hangs, whatever the bytes -/
+theorem records_no_panic (bs : Bytes) (m : String) : records bs ≠ .panic m :=
+  recordsGo_ne_panic m _ bs
+
+theorem records_total (bs : Bytes) : records bs ≠ .outOfFuel :=
+  recordsGo_fuel _ bs (by omega)
+
+/-- the shared-string reader never panics and never hangs, whatever the bytes -/
+theorem readSharedStrings_no_panic (bs : Bytes) (m : String) : readSharedStrings bs ≠ .panic m :=
+  readSharedStrings_ne_panic bs m
+
+theorem readSharedStrings_total (bs : Bytes) : readSharedStrings bs ≠ .outOfFuel :=
+  readSharedStrings_ne_fuel bs
 
 /-- non-vacuity: a row header, an RK date cell, an ignorable record, a formula-error cell -/
 example :
